@@ -20,7 +20,8 @@ TRUSTED_BASE = [
     "streams of this run (differential testing: bounded by the generators, whose distribution is printed here)",
     "the specifications in lean/UnicLocale/Spec as the reading of the property statement",
     "translators: cfg-guarded re-export + `ulharness dump-tables` + gen/tables2lean.py (compiled tables), "
-    "gen/cldr2lean.py (CLDR JSON)",
+    "gen/cldr2lean.py (CLDR JSON; cross-checked on every run by an independent reader written in Lean, "
+    "lean/UnicLocale/CldrCheck.lean: Lean.Json, own subtag classification and packing)",
     "modelled by contract, not verified: tinystr byte predicates and case maps, std sort_unstable/dedup/BTreeMap/"
     "Vec::insert/remove/slice::split/Peekable, derived PartialEq/Ord/Hash, fmt plumbing",
 ]
